@@ -9,6 +9,7 @@ SeamCounters g_seamc;
 
 extern "C" void probe_compression(uint32_t *state, const unsigned char *blocks, size_t n) {
     g_seamc.compress_calls++;
+    if (n == 0 || blocks == NULL || state == NULL) { g_mon.compress_contract_violations++; return; }
     fiber_yield_point(-1);
     ref::sha256_compress(state, blocks, n);
 }
